@@ -77,6 +77,7 @@ pub struct LengthError;
             box_slice_from_raw(box_arr_into_raw::<N>(this), N::usize_())
         }
     }
+    proof fn reach_into_boxed_slice<N: ArrayLength>(this: BoxArr) requires this.block.elems == N::n(), { assert(false); } /*OB:canary.into_boxed_slice:*/
 
     // extracted from src/impl_alloc.rs:39  `fn into_vec(self: Box<GenericArray<T, N>>) -> Vec<T>`
     pub fn into_vec<N: ArrayLength>(this: BoxArr) -> (r: VecT)
@@ -89,6 +90,7 @@ pub struct LengthError;
     {
         vec_from_box_slice(into_boxed_slice::<N>(this))
     }
+    proof fn reach_into_vec<N: ArrayLength>(this: BoxArr) requires this.block.elems == N::n(), { assert(false); } /*OB:canary.into_vec:*/
 
     // extracted from src/impl_alloc.rs:43  `fn try_from_boxed_slice(slice: Box<[T]>) -> Result<Box<GenericArray<T, N>>, LengthError>`
     pub fn try_from_boxed_slice<N: ArrayLength>(slice: BoxSlice) -> (r: Result<BoxArr, LengthError>)
@@ -107,6 +109,7 @@ pub struct LengthError;
         }
         Ok({ box_arr_from_raw::<N>(box_slice_into_raw(slice)) })
     }
+    proof fn reach_try_from_boxed_slice<N: ArrayLength>(slice: BoxSlice) requires slice.wf(), { assert(false); } /*OB:canary.try_from_boxed_slice:*/
 
     // extracted from src/impl_alloc.rs:51  `fn try_from_vec(vec: Vec<T>) -> Result<Box<GenericArray<T, N>>, LengthError>`
     pub fn try_from_vec<N: ArrayLength>(vec: VecT) -> (r: Result<BoxArr, LengthError>)
@@ -119,6 +122,7 @@ pub struct LengthError;
     {
         try_from_boxed_slice::<N>(vec.into_boxed_slice())
     }
+    proof fn reach_try_from_vec<N: ArrayLength>(vec: VecT) requires vec.wf(), { assert(false); } /*OB:canary.try_from_vec:*/
 
 proof fn canary() { assert(false); } /*OB:canary:*/
 } // verus!
